@@ -31,5 +31,4 @@ NOT_APPLICABLE = {
     'C41': 'oracle is execution in a Lua VM; loop narrowing is whole-analysis',
     # planned, not yet built:
     
-    'C26': PENDING, 
 }
